@@ -675,7 +675,8 @@ func (s *scope) createInstance(descriptor *Descriptor) (any, error) {
 				continue // this output was removed from the collection before Build: it is not a service
 			}
 
-			if regDescriptor == descriptor || (reg.Type == descriptor.Type && regKey == descriptor.Key) {
+			// A group field of the requested type is not the requested (type, key) service
+			if regDescriptor == descriptor || (reg.Group == "" && reg.Type == descriptor.Type && regKey == descriptor.Key) {
 				primaryService = value
 			}
 
